@@ -765,5 +765,5 @@ def TASKS(tier):     # noqa: F811
                        bounds='Iterate::next with the real IterationStateHandler: %d outer iteration(s) x <=%d input items, 1..%d '
                               'rounds, body output of 0..2 items per round, every interleaving of input / feedback / state '
                               'messages that respects causality, try_recv seeing or missing pending feedback' % (outer, ml, mr),
-                       role='iterate', opts={'covers': ['several_rounds']}, budget=300))
+                       role='iterate', opts={'covers': ['several_rounds'] if mr > 1 else []}, budget=300))
     return ts
